@@ -17,8 +17,8 @@ from .. import guards as G
 from .. import ownership as O
 from ..model import AnalysisError, Unknown, dotted, src
 
-TECHNIQUE = "interprocedural acquire/release (typestate) analysis of register activation with ownership transfer and correlated-guard idioms (static analysis)"
-ENGINES = ["model", "flow"]
+TECHNIQUE = "interprocedural acquire/release (typestate) analysis of register activation with ownership transfer and correlated-guard idioms; abstract interpretation of small functions over an enumerated finite domain by the checker's own AST interpreter (static analysis)"
+ENGINES = ["model", "flow", "circuit"]
 EXPLANATION = (
     "Over sdk/builder.py, sdk/futures.py, sdk/connection.py and sdk/epr_socket.py (closures as units of their own): acquire sites are "
     "get_inactive_register(activate=True), add_active_register, and calls whose bottom-up summary returns an owned register "
